@@ -183,10 +183,10 @@ def grammar_in_family(g):
 
 # ------------------------------------------------------------------ random grammars
 
-TEXT_LITS = ["a", "b", "xy", "0", "1", "c", "é", "-", ";"]
+TEXT_LITS = ["a", "b", "xy", "0", "1", "c", "é", "-", ";", "abc"]
 BYTE_LITS = [b"\x01", b"A", b"\x80\xff", b"\x00"]
 CLASSES = ["abc", "ab", "01", "0123456789", "xyz"]
-SMALL_CLASSES = ["abc", "ab", "01", "xy"]
+SMALL_CLASSES = ["abc", "ab", "01", "xy", "a\u00e9"]
 
 
 def rand_leaf(rnd, flavour, classes=None):
@@ -198,7 +198,7 @@ def rand_leaf(rnd, flavour, classes=None):
         if r < 0.6:
             return lit_bytes(rnd.choice(BYTE_LITS))
         if r < 0.8:
-            return lit_text(rnd.choice(["a", "xy", "0"]))
+            return lit_text(rnd.choice(["a", "xy", "0", "\u00e9"]))
         return regex([(list(b"AB"), 1, 2)], kind="bytes") if False else lit_bytes(rnd.choice(BYTE_LITS))
     if r < 0.75:
         return lit_text(rnd.choice(TEXT_LITS))
